@@ -7,6 +7,7 @@ campaign (naming / layout stress, API assertion files).  What is proved here is 
 (namer/namer.go), which is what keeps emitted identifiers from being declared twice or shadowing the receiver.
 -/
 import Gv.Model.Namer
+import Gv.Model.Gen
 
 namespace Gv.Props.C01
 open Gv.Str Gv.Namer
@@ -110,5 +111,86 @@ theorem C01_receiver_reserved (base c : S) (n' : Namer) (h : name new base = som
 example : (name new "c".toList).map (·.1) = some "c2".toList := by decide
 example : (index new).map (·.1) = some "i".toList := by decide
 example : (mapKV new).map (·.1) = some ("key".toList, "value".toList) := by decide
+
+/-! ### the rebuild of callers (fix 7c4d1f2, mirrored by `Gen.markDirty`)
+
+A generated method whose signature changes (error result, context argument) must not leave a method behind that was
+built with a call of the old signature: every recorded caller is flagged for a rebuild, nothing else about the table
+changes. -/
+open Gv.Gen
+
+theorem markDirty_length (callers : List (Nat × Nat)) (callee : Nat) (ms : List GenMethod) :
+    (markDirty callers callee ms).length = ms.length := by
+  unfold markDirty
+  induction callers generalizing ms with
+  | nil => rfl
+  | cons p rest ih =>
+    simp only [List.foldl_cons]
+    rw [ih]
+    split <;> simp
+
+/-- once flagged, a method stays flagged -/
+theorem markDirty_keeps (callers : List (Nat × Nat)) (callee : Nat) (ms : List GenMethod) (k : Nat) (m : GenMethod)
+    (h : ms[k]? = some m) (hd : m.dirty = true) :
+    ∃ m', (markDirty callers callee ms)[k]? = some m' ∧ m'.dirty = true := by
+  unfold markDirty
+  induction callers generalizing ms m with
+  | nil => exact ⟨m, h, hd⟩
+  | cons p rest ih =>
+    simp only [List.foldl_cons]
+    split
+    · by_cases hk : p.2 = k
+      · subst hk
+        apply ih _ { m with dirty := true }
+        · simp [List.getElem?_modify, h]
+        · rfl
+      · apply ih _ m
+        · simp [List.getElem?_modify, hk, h]
+        · exact hd
+    · exact ih ms m h hd
+
+/-- **every recorded caller of the changed method is rebuilt** -/
+theorem C01_callers_are_rebuilt (callers : List (Nat × Nat)) (callee caller : Nat) (ms : List GenMethod)
+    (hc : (callee, caller) ∈ callers) (hk : caller < ms.length) :
+    ∃ m', (markDirty callers callee ms)[caller]? = some m' ∧ m'.dirty = true := by
+  induction callers generalizing ms with
+  | nil => cases hc
+  | cons p rest ih =>
+    rcases List.mem_cons.1 hc with rfl | hr
+    · -- this entry flags the caller; the rest keeps the flag
+      have hstep : markDirty ((callee, caller) :: rest) callee ms =
+          markDirty rest callee (ms.modify caller (fun m => { m with dirty := true })) := by
+        simp [markDirty]
+      rw [hstep]
+      obtain ⟨m, hm⟩ : ∃ m, ms[caller]? = some m := ⟨ms[caller], by simp [hk]⟩
+      apply markDirty_keeps rest callee _ caller { m with dirty := true }
+      · simp [List.getElem?_modify, hm]
+      · rfl
+    · have hstep : markDirty (p :: rest) callee ms =
+          markDirty rest callee (if p.1 == callee then ms.modify p.2 (fun m => { m with dirty := true }) else ms) := by
+        simp [markDirty]
+      rw [hstep]
+      apply ih _ hr
+      split <;> simp [hk]
+
+/-- methods that are not callers of the changed method are left exactly as they were -/
+theorem C01_only_callers_are_touched (callers : List (Nat × Nat)) (callee k : Nat) (ms : List GenMethod)
+    (hn : ∀ p ∈ callers, p.1 = callee → p.2 ≠ k) : (markDirty callers callee ms)[k]? = ms[k]? := by
+  unfold markDirty
+  induction callers generalizing ms with
+  | nil => rfl
+  | cons p rest ih =>
+    simp only [List.foldl_cons]
+    rw [ih _ (fun q hq => hn q (List.mem_cons_of_mem _ hq))]
+    split
+    · rename_i hp
+      have : p.2 ≠ k := hn p (List.mem_cons_self ..) (by simpa using hp)
+      simp [List.getElem?_modify, this]
+    · rfl
+
+/-- non-vacuity: a pointer helper (index 2) recorded as caller of the struct helper (index 1) -/
+example : ∃ m', (markDirty [(1, 2), (0, 1)] 1 [default, default, default])[2]? = some m' ∧ m'.dirty = true :=
+  C01_callers_are_rebuilt _ 1 2 _ (by simp) (by simp)
+
 
 end Gv.Props.C01
